@@ -76,35 +76,53 @@ func judgeC18(c *C18Case, cx *Ctx) *Violation {
 	for i, p := range c.Pool {
 		snap[i] = cloneKeepNil(p)
 	}
-	base := make([]APIResult, len(calls))
-	for i, cl := range calls {
-		base[i] = cl.Run()
+	// The concurrent phase comes first and the "alone" results are computed afterwards: state
+	// that the library initialises lazily on first use (a cache, a table) is then first touched
+	// by several goroutines at once. In round 0 all goroutines are released together and run the
+	// calls in the same order (the same call at the same moment); later rounds are staggered.
+	type conc struct {
+		i   int
+		res APIResult
+		fn  string
 	}
+	results := make([][]conc, c.Goroutines)
+	start := make(chan struct{})
 	var wg sync.WaitGroup
-	var mu sync.Mutex
-	var firstDiff *Violation
 	for g := 0; g < c.Goroutines; g++ {
 		wg.Add(1)
 		go func(g int) {
 			defer wg.Done()
-			for r := 0; r < c.Rounds; r++ {
+			<-start
+			for r := 0; r <= c.Rounds; r++ {
 				for k := range calls {
-					i := (k + g) % len(calls) // different goroutines start at different calls
-					cp := *calls[i]           // own copy of the scalar arguments, shared path slices
-					res := cp.Run()
-					if res.Fingerprint != base[i].Fingerprint || (res.Panic == nil) != (base[i].Panic == nil) || res.ExecFalse != base[i].ExecFalse {
-						mu.Lock()
-						if firstDiff == nil {
-							firstDiff = violf("%s returned a different result when %d goroutines ran the batch concurrently: alone %.300s..., concurrently %.300s... (panic alone %v, concurrently %v)",
-								cp.Fn, c.Goroutines, base[i].Fingerprint, res.Fingerprint, base[i].Panic, res.Panic)
-						}
-						mu.Unlock()
+					i := k
+					if r > 0 {
+						i = (k + g) % len(calls) // different goroutines start at different calls
 					}
+					cp := *calls[i] // own copy of the scalar arguments, shared path slices
+					results[g] = append(results[g], conc{i: i, res: cp.Run(), fn: cp.Fn})
 				}
 			}
 		}(g)
 	}
+	close(start)
 	wg.Wait()
+	base := make([]APIResult, len(calls))
+	for i, cl := range calls {
+		base[i] = cl.Run()
+	}
+	var firstDiff *Violation
+	for g := range results {
+		for _, cr := range results[g] {
+			i, res := cr.i, cr.res
+			if res.Fingerprint != base[i].Fingerprint || (res.Panic == nil) != (base[i].Panic == nil) || res.ExecFalse != base[i].ExecFalse {
+				if firstDiff == nil {
+					firstDiff = violf("%s returned a different result when %d goroutines ran the batch concurrently: alone %.300s..., concurrently %.300s... (panic alone %v, concurrently %v)",
+						cr.fn, c.Goroutines, base[i].Fingerprint, res.Fingerprint, base[i].Panic, res.Panic)
+				}
+			}
+		}
+	}
 	if firstDiff != nil {
 		return firstDiff
 	}
@@ -122,7 +140,7 @@ func judgeC18(c *C18Case, cx *Ctx) *Violation {
 		}
 	}
 	cx.St.Eval(c, sweeps >= 2 && countVerts(c.Pool[0]) >= 3, boolLabel("race-detector", raceEnabled), goroutineLabel(c.Goroutines))
-	cx.St.Count("concurrent_calls", int64(c.Goroutines*c.Rounds*len(calls)))
+	cx.St.Count("concurrent_calls", int64(c.Goroutines*(c.Rounds+1)*len(calls)))
 	return nil
 }
 
@@ -138,7 +156,7 @@ func goroutineLabel(g int) string {
 
 func init() {
 	defProp("C18",
-		"rapid-generated batches of 4-10 calls of the C03 grammar (distinct engine / offset / rect-clip objects per call) whose path arguments are shared slices from a pool of 1-3 path sets; the batch runs once sequentially (baseline) and then 1-2 times in each of 2, 4 or 8 goroutines at once, every goroutine starting at a different call; the test binary is built with -race (GORACE=halt_on_error=1): a race report is a violation, every concurrent result must equal its sequential result, the shared inputs must be unchanged; non-trivial = at least two calls of the batch run sweeps / clippers on a shared input with >= 3 vertices",
+		"rapid-generated batches of 4-10 calls of the C03 grammar (distinct engine / offset / rect-clip objects per call) whose path arguments are shared slices from a pool of 1-3 path sets; the batch runs 2-3 times in each of 2, 4 or 8 goroutines at once (first round: all goroutines released together on the same call order, so that lazily initialised library state is first touched concurrently; later rounds: every goroutine starts at a different call) and only then once sequentially (the results of each call alone); the test binary is built with -race (GORACE=halt_on_error=1): a race report is a violation, every concurrent result must equal its sequential result, the shared inputs must be unchanged; non-trivial = at least two calls of the batch run sweeps / clippers on a shared input with >= 3 vertices",
 		[]string{"the harness does not control the schedule; the race detector reports unordered conflicting accesses that actually execute, whatever the timing",
 			"a case killed by the race detector is reported through a journal file, not shrunk"},
 		drawC18, judgeC18)
